@@ -3,6 +3,7 @@
 package sy
 
 import (
+	"flag"
 	"fmt"
 	"strings"
 	"time"
@@ -23,10 +24,14 @@ const MaxMsg = 12
 
 // Main is the entry point of `vh sy`
 func Main(args []string) int {
-	o := fnutil.Open("sy", args, nil)
+	var maxMsg, maxRec *int
+	o := fnutil.Open("sy", args, func(fs *flag.FlagSet) {
+		maxMsg = fs.Int("maxmsg", MaxMsg, "defs.InputLogMaxMessageBytes (a value other than the default runs only the long-tail cases)")
+		maxRec = fs.Int("maxrec", 64, "defs.InputLogMaxRecordBytes")
+	})
 	logger.SetLogLevel(logger.FatalLevel)
-	defs.InputLogMaxMessageBytes = MaxMsg
-	defs.InputLogMaxRecordBytes = 64
+	defs.InputLogMaxMessageBytes = *maxMsg
+	defs.InputLogMaxRecordBytes = *maxRec
 	schema := syslogprotocol.RFC5424Schema
 	mappings := [][]string{
 		{"emerg", "alert", "crit", "err", "warn", "notice", "info", "debug"},
@@ -95,6 +100,25 @@ func Main(args []string) int {
 
 	const ts = "2020-01-02T03:04:05Z"
 	hdr := func(pri string) string { return "<" + pri + ">1 " + ts + " host app 123 msgid - " }
+	if *maxMsg != MaxMsg {
+		// long messages whose kept part ends in a long run of multi-byte characters (no ASCII byte near the cut): every
+		// alignment of the run, every length around the limit, valid and invalid tails
+		for _, ch := range []string{"\xc3\xa9", "\xe2\x82\xac", "\xf0\x9f\x98\x80", "\xd0\xb6"} {
+			for k := 0; k <= 5; k++ {
+				for total := *maxMsg - 6; total <= *maxMsg+9; total++ {
+					m := strings.Repeat("a", k)
+					for len(m)+len(ch) <= total {
+						m += ch
+					}
+					run(0, hdr("13")+m)
+					run(0, hdr("13")+m+ch[:1])       // a broken sequence at the very end
+					run(0, hdr("13")+"x "+m+" tail") // ASCII after the run, beyond the limit
+				}
+			}
+		}
+		o.Close()
+		return 0
+	}
 	// (a) every PRI 0..191 and out-of-range / non-canonical ones, under three level mappings
 	pris := []string{}
 	for p := 0; p <= 191; p++ {
